@@ -22,7 +22,7 @@ ASSUMPTIONS = ['every transcription is over its own engine\'s charset', 'the mea
                'confidence equality within 1e-12']
 N = {'quick': 1500, 'thorough': 60000}
 CLASSES = ['mixed', 'mixed', 'ties', 'self_merge', 'all_empty', 'different_charsets', 'single_engine', 'unalignable', 'per_line_charsets', 'merge_of_merges', 'near_ties', 'raw_scores', 'repeated_ids', 'same_text', 'regrouped']
-REQUIRED = ['main_runs_with_a_minimum_confidence', 'lines_of_tables_without_a_blank_entry', 'merges_of_differently_grouped_layouts', 'winner_not_first_with_the_same_text', 'near_ties_checked', 'lines_with_ids_repeated_per_region', 'raw_score_lines', 'main_runs', 'main_tie_lines', 'per_line_charset_merges', 'merges', 'lines_checked', 'winner_not_first', 'ties_checked', 'self_merges', 'no_positive_confidence_lines']
+REQUIRED = ['merges_with_an_almost_certain_first_engine', 'main_runs_with_a_minimum_confidence', 'lines_of_tables_without_a_blank_entry', 'merges_of_differently_grouped_layouts', 'winner_not_first_with_the_same_text', 'near_ties_checked', 'lines_with_ids_repeated_per_region', 'raw_score_lines', 'main_runs', 'main_tie_lines', 'per_line_charset_merges', 'merges', 'lines_checked', 'winner_not_first', 'ties_checked', 'self_merges', 'no_positive_confidence_lines']
 
 
 def setup(ctx):
@@ -85,6 +85,12 @@ def gen(rng, i, ctx):
         for e in range(1, ne):
             for ld in engines[e]['lines']:
                 ld['nudge'] = float(rng.choice([1e-10, 3e-10, 1e-11])) * e
+        # (round 8) or: the first engine is all but certain (mean posterior within 1e-7 of 1), a later one is certain (exactly 1.0 in double precision)
+        if rng.random() < 0.4:
+            for e in range(ne):
+                for ld in engines[e]['lines']:
+                    ld.pop('nudge', None)
+                    ld['margin'] = [float(rng.uniform(18.5, 19.5)), 60.0, 17.0][min(e, 2)] if e < 2 or e == ne - 1 else float(rng.uniform(10, 16))
     if cls == 'raw_scores':
         # transformer-shaped matrices holding raw scores of large magnitude (no soft-max applied by the recogniser)
         for en in engines:
@@ -99,6 +105,8 @@ def gen(rng, i, ctx):
                     if ld['text']:
                         ld['text'] = ld['text'] + en['chars'][-1]
     case = {'cls': cls, 'engines': engines, 'nl': nl}
+    if cls == 'near_ties' and any('margin' in ld for en in engines for ld in en['lines']):
+        case['almost_certain_first_engine'] = True
     if cls == 'repeated_ids':
         case['ids_per_region'] = True          # lines numbered per region: l0, l1 in r1 and again in r2
     return case
@@ -121,6 +129,9 @@ def build_layout(L, eng, nl, ids_per_region=False, first_region_lines=None):
         if ld['mode'] == 'transformer':
             lg = rng.normal(size=(len(labels), C)) * 3
             lg[np.arange(len(labels)), labels] += float(rng.uniform(0, 6))
+            if 'margin' in ld:
+                lg = np.full((len(labels), C), 0.01)
+                lg[np.arange(len(labels)), labels] = ld['margin']
             lg = lg * ld.get('magnitude', 1.0)
             lg[np.arange(len(labels)), labels] += ld.get('nudge', 0.0)
         elif ld['mode'] == 'short':
@@ -218,6 +229,8 @@ def run_merge(case, order, mon, ctx):
             mon.count('near_ties_checked')
         if case.get('ids_per_region'):
             mon.count('lines_with_ids_repeated_per_region')
+        if case.get('almost_certain_first_engine') and li == 0:
+            mon.count('merges_with_an_almost_certain_first_engine')
         if bi is not None and bi > 0:
             mon.count('winner_not_first')
             if snap[bi][li]['t'] == snap[0][li]['t']:
